@@ -108,7 +108,13 @@ class _SSeq:
         return len(self.els)
 
     def __hash__(self):
-        raise ZXError('hash() of symbolic %s (dict/set keyed by a symbolic value?)' % type(self).__name__)
+        # Symbolic keys are supported only through the instrumented dict/set operations (linear scans with ==, see instrument.zx_si).  A constant
+        # hash per length keeps symbolic keys comparable among themselves; containers holding one are marked tainted so that instrumented reads
+        # never rely on hashing.  Outside an instrumented store this is still an error.
+        from . import instrument
+        if not instrument.HASH_OK[0]:
+            raise ZXError('hash() of symbolic %s (dict/set keyed by a symbolic value outside an instrumented store?)' % type(self).__name__)
+        return 0x5EED0000 + len(self.els)
 
     def __bool__(self):
         return len(self.els) > 0
